@@ -235,7 +235,13 @@ def _bc_slack(bc: float, t: int = 1) -> float:
 
 
 def expected_step(
-    hp: HP, t: int, W: torch.Tensor, G_in: torch.Tensor, pre: BlockState, post_inv: list[torch.Tensor]
+    hp: HP,
+    t: int,
+    W: torch.Tensor,
+    G_in: torch.Tensor,
+    pre: BlockState,
+    post_inv: list[torch.Tensor],
+    post_corrected: torch.Tensor | None = None,
 ) -> Expected:
     """One documented step of one block that has a gradient at group step t (t = counter value *after* increment).
 
@@ -340,7 +346,11 @@ def expected_step(
                 for Q, k in zip(post_inv, pdims):
                     R = mode_apply(R, Q.T, k)
                     Rabs = mode_apply(Rabs, Q.T.abs(), k)
-            den = (corrected / bc2 + hp.epsilon).pow(1.0 / root)
+            # like the stored bases, the stored corrected eigenvalues are taken as they are for the direction (they are
+            # compared separately): where the rotated gradient cancels to round-off level, the accumulator's *relative*
+            # error is unbounded and would otherwise leak into the parameter comparison
+            den_src = post_corrected if post_corrected is not None else corrected
+            den = (den_src / bc2 + hp.epsilon).pow(1.0 / root)
             slack += _bc_slack(bc2, t) / root
             R = R / den
             Rabs = Rabs / den
